@@ -6,6 +6,7 @@ import (
 	"io"
 	"strings"
 
+	"github.com/gobwas/ws"
 	"github.com/gobwas/ws/wsutil"
 	"wsverif/vh"
 )
@@ -211,6 +212,74 @@ func c05(c *ctx) {
 			}
 		}
 	}
+	// control frames announcing, in the 64-bit form, lengths far beyond 125 whose low 8, 16 or 32 bits
+	// look like a small number: refused at the header like every control frame over 125 bytes,
+	// stand-alone or between the fragments of a message, and nothing of what follows is handed out
+	for _, side := range []string{"server", "client"} {
+		for _, announced := range []uint64{1 << 32, 1<<32 + 5, 1<<32 + 125, 3 << 32, 1<<40 + 1, 1<<16 + 5, 1 << 16, 1<<31 + 7, 1 << 8, 1<<8 + 125, 1<<62 + 3, 1<<63 - 1} {
+			for _, op := range []int{9, 10, 8} {
+				for _, inside := range []bool{false, true} {
+					key := fmt.Sprintf("ctlhuge/%s/%d/%d/%v", side, announced, op, inside)
+					if !vh.Only(key) {
+						continue
+					}
+					masked := side == "server"
+					var stream []byte
+					if inside {
+						stream = vh.BuildFrame(2, false, 0, masked, [4]byte{1, 2, 3, 4}, []byte("ab"))
+					}
+					hdr := []byte{0x80 | byte(op), 127}
+					if masked {
+						hdr[1] |= 0x80
+					}
+					for sh := 56; sh >= 0; sh -= 8 {
+						hdr = append(hdr, byte(announced>>uint(sh)))
+					}
+					if masked {
+						hdr = append(hdr, 0, 0, 0, 0)
+					}
+					stream = append(append(stream, hdr...), bytes.Repeat([]byte{'Z'}, 200)...)
+					called := 0
+					rd := &wsutil.Reader{Source: bytes.NewReader(stream), State: wsState(side)}
+					rd.OnIntermediate = func(h ws.Header, r io.Reader) error { called++; io.Copy(io.Discard, r); return nil }
+					var delivered []byte
+					var lastErr error
+					paniced := ""
+					func() {
+						defer func() {
+							if p := recover(); p != nil {
+								paniced = fmt.Sprint(p)
+							}
+						}()
+						if inside {
+							if _, err := rd.NextFrame(); err != nil {
+								lastErr = fmt.Errorf("prefix refused: %v", err)
+								return
+							}
+							io.ReadFull(rd, make([]byte, 2))
+						}
+						_, lastErr = rd.NextFrame()
+						if lastErr == nil {
+							b := make([]byte, 32)
+							for j := 0; j < 4; j++ {
+								k, err := rd.Read(b)
+								delivered = append(delivered, b[:k]...)
+								if err != nil {
+									lastErr = err
+									break
+								}
+							}
+						}
+					}()
+					if cls, _ := rerr(lastErr); paniced != "" || cls != "protocol" || len(delivered) > 0 || called > 0 {
+						t.meta.Direct = append(t.meta.Direct, map[string]interface{}{"key": key,
+							"what": fmt.Sprintf("a control frame announcing %d bytes was not refused at its header (err=%v panic=%q delivered=%d callbacks=%d)", announced, lastErr, paniced, len(delivered), called)})
+					}
+					t.traces++
+				}
+			}
+		}
+	}
 	// a 64-bit length with its top bit set is not a length (RFC 6455 5.2): the frame is refused, whatever
 	// its position, opcode or the size limit, and nothing after its header is delivered
 	for _, side := range []string{"server", "client"} {
@@ -367,6 +436,13 @@ func c07(c *ctx) {
 						v := vs[(rot/2)%len(vs)]
 						key := fmt.Sprintf("utf8/%s/%d/%d/%d/%d/%s/%s", s.name, i, j, ping, op, side, v.Entry)
 						t.run(mkScenario(key, side, v, fs, rchunks[rot%len(rchunks)], rbufs[(rot/5)%len(rbufs)]))
+						// an OnContinuation callback that takes the first byte(s) of a continuation frame for
+						// itself: they are part of the message, and of what the UTF-8 check has to see
+						if v.Entry == "reader" && len(parts) > 1 && (c.thorough || rot%3 == 0 || len(parts[1]) > 0 && parts[1][0] >= 0x80) {
+							sc := mkScenario("contread"+key[4:], side, v, fs, rchunks[(rot+2)%len(rchunks)], rbufs[(rot/5)%len(rbufs)])
+							sc.ContRead = 1 + rot%2
+							t.run(sc)
+						}
 					}
 				}
 			}
@@ -659,6 +735,36 @@ func c18r(c *ctx) {
 		Rule: "message reader reuse: first message (32 valid/invalid/truncated UTF-8 strings as text or binary, 1-3 fragments, optional ping) read with 1/2/7-byte buffers and discarded after 0..3 reads or read to the end, followed by two valid messages on the same reader (CheckUTF8 on/off, extension attached or not); distinct = (string, discard point, outcome)"}}
 	defer t.out.Close()
 	reuseFamily(t, c, "reuse", func(rot int, disc int) bool { return c.thorough || rot%3 == 0 || disc == 1 })
+	// a message given up after the application's own OnContinuation callback refused one of its
+	// fragments (the last one, or an earlier one): once Discard() has dropped the rest, the reader
+	// takes the next messages like a new one
+	rot := 0
+	for mi, m := range [][]fspec{
+		{{Op: 1, Fin: false, Pay: []byte("ab")}, {Op: 0, Fin: true, Pay: []byte("cd")}},
+		{{Op: 2, Fin: false, Pay: []byte("ab")}, {Op: 0, Fin: false, Pay: []byte("cd")}, {Op: 0, Fin: true, Pay: []byte("ef")}},
+		{{Op: 1, Fin: false, Pay: []byte{}}, {Op: 9, Fin: true, Pay: []byte("p")}, {Op: 0, Fin: false, Pay: []byte("x")}, {Op: 0, Fin: true, Pay: []byte{}}},
+	} {
+		nc := 0
+		for _, f := range m {
+			if f.Op == 0 {
+				nc++
+			}
+		}
+		for k := 1; k <= nc; k++ {
+			for _, side := range []string{"server", "client"} {
+				for _, utf8 := range []bool{true, false} {
+					for bi, buf := range []int{1, 2, 64} {
+						rot++
+						fs := append(append([]fspec(nil), m...), fspec{Op: 2, Fin: false, Pay: []byte("ne")}, fspec{Op: 0, Fin: true, Pay: []byte("xt")}, fspec{Op: 1, Fin: true, Pay: []byte("last")})
+						key := fmt.Sprintf("cberr/%d/%d/%s/%v/%d", mi, k, side, utf8, bi)
+						sc := mkScenario(key, side, rvariant{"reader", nil, -1, utf8}, fs, rchunks[rot%len(rchunks)], buf)
+						sc.ContErr = k
+						t.run(sc)
+					}
+				}
+			}
+		}
+	}
 	t.finish(c)
 }
 
